@@ -1,9 +1,95 @@
 (** C05 -- ONCE and POLL return exactly the matching snapshot, then sync.
     Only the property theorems, each closed by [exact] of a lemma proved in
-    Subscribe/SubProofs.v, with [Print Assumptions] beneath. *)
-From Gnmi Require Import Base.Prelude CTree.CTreeModel Subscribe.SubModel Subscribe.SubProofs.
+    Subscribe/SubProofs.v, with [Print Assumptions] beneath.
 
-Theorem C05_no_acl_sends_everything :
-  forall allow l, send_filter allow NoACL l = l.
-Proof. exact send_filter_noacl. Qed.
-Print Assumptions C05_no_acl_sends_everything.
+    Vocabulary (SubProofs.v): [wf_cache c] -- target names distinct, every tree
+    well formed (what every reachable cache satisfies: [C05_cache_ops_keep_wf]);
+    [accepted c rq pf] -- the request has a SubscriptionList with prefix [pf],
+    a non-empty target that the cache has (or "*"); [paths_ok rq pf] --
+    CompletePath succeeds for every subscription (no origin conflict);
+    [matches c t pf subs n] -- notification [n] is stored in a target selected
+    by [t] under an index path that some completed subscription path matches
+    ([qmatch]: wildcards at any position; origins are leading path elements). *)
+From Gnmi Require Import Base.Prelude CTree.CTreeModel CTree.CTreeProofs Subscribe.SubModel Subscribe.SubProofs.
+
+(** ONCE, unchanging cache: the updates before the sync are exactly the
+    matching leaves with their current values; exactly one sync, last; status
+    OK; nothing that does not match. *)
+Theorem C05_once_exact :
+  forall allow c rq pf,
+    wf_cache c -> accepted c rq pf -> r_mode rq = 1%Z -> r_updates_only rq = false ->
+    paths_ok rq pf ->
+    exists ups,
+      run allow NoACL (Some rq) (RS c PBefore) [SSub]
+        = ([(ups ++ [RSync], COk)], RS c (PEnded SOK))
+      /\ ~ In RSync ups
+      /\ (forall n, In (RUpd n) ups <-> matches c (g_target pf) (Some pf) (r_subs rq) n).
+Proof. exact once_exact. Qed.
+Print Assumptions C05_once_exact.
+
+Theorem C05_once_updates_only :
+  forall allow c rq pf,
+    accepted c rq pf -> r_mode rq = 1%Z -> r_updates_only rq = true ->
+    run allow NoACL (Some rq) (RS c PBefore) [SSub] = ([([RSync], COk)], RS c (PEnded SOK)).
+Proof. exact once_updates_only. Qed.
+Print Assumptions C05_once_updates_only.
+
+(** POLL, initial request: after any cache history [pre], the first group is
+    exactly the leaves matching then, followed by one sync. *)
+Theorem C05_poll_initial_exact :
+  forall allow c0 rq pf pre ops,
+    wf_cache c0 -> no_sub pre ->
+    accepted (cache_after c0 pre) rq pf -> r_mode rq = 2%Z -> r_updates_only rq = false ->
+    paths_ok rq pf ->
+    exists ups,
+      group_at allow NoACL (Some rq) (RS c0 PBefore) (pre ++ SSub :: ops) (List.length pre)
+        = Some (ups ++ [RSync], COk)
+      /\ ~ In RSync ups
+      /\ (forall n, In (RUpd n) ups <->
+                    matches (cache_after c0 pre) (g_target pf) (Some pf) (r_subs rq) n).
+Proof. exact poll_initial_exact. Qed.
+Print Assumptions C05_poll_initial_exact.
+
+(** POLL, every trigger: for any number of earlier steps [ops1] (cache edits and
+    earlier triggers) and later steps [ops2], the group of the trigger is exactly
+    the leaves matching in the cache as edited so far, then one sync, last; and
+    closing the request stream ends the RPC with status OK. *)
+Theorem C05_poll_exact :
+  forall allow c0 rq pf pre ops1 ops2,
+    wf_cache c0 -> no_sub pre ->
+    accepted (cache_after c0 pre) rq pf -> r_mode rq = 2%Z -> r_updates_only rq = false ->
+    paths_ok rq pf ->
+    let script := pre ++ SSub :: ops1 ++ SPoll :: ops2 in
+    let c1 := cache_after c0 (pre ++ SSub :: ops1) in
+    exists ups,
+      group_at allow NoACL (Some rq) (RS c0 PBefore) script (List.length pre + 1 + List.length ops1)
+        = Some (ups ++ [RSync], COk)
+      /\ ~ In RSync ups
+      /\ (forall n, In (RUpd n) ups <-> matches c1 (g_target pf) (Some pf) (r_subs rq) n)
+      /\ final_status (rs_phase (snd (run allow NoACL (Some rq) (RS c0 PBefore) script))) = SOK.
+Proof. exact poll_exact. Qed.
+Print Assumptions C05_poll_exact.
+
+(** between triggers a POLL sends nothing *)
+Theorem C05_poll_silent_between :
+  forall allow rq pf c ops1 o ops2,
+    r_prefix rq = Some pf -> snapshot_ok rq pf ->
+    exists cr,
+      group_at allow NoACL (Some rq) (RS c (PPoll (g_target pf) rq)) (ops1 ++ SCache o :: ops2)
+               (List.length ops1) = Some ([], cr).
+Proof. exact run_poll_silent. Qed.
+Print Assumptions C05_poll_silent_between.
+
+(** every cache operation keeps the cache well formed, so the theorems above
+    apply to every cache a history of operations can produce *)
+Theorem C05_cache_ops_keep_wf :
+  forall ts ops, wf_cache (cache_after (empty_cache ts) ops).
+Proof. exact reachable_cache_wf. Qed.
+Print Assumptions C05_cache_ops_keep_wf.
+
+(** no leaf is reported twice by one tree query: per subscription and target a
+    leaf is delivered at most once *)
+Theorem C05_query_reports_each_leaf_once :
+  forall (tr : tree noti) q, wf_tree tr -> NoDup (map fst (query tr q)).
+Proof. exact query_nodup. Qed.
+Print Assumptions C05_query_reports_each_leaf_once.
